@@ -15,6 +15,9 @@ def main():
         "multiprocessing / OS scheduling / shared-memory coherence are outside the model: exercised with real pools, not proved",
     ]
     run.assumptions += ["worker functions are slice-wise (row-wise) along the mapped dim; imap preserves submission order (CPython multiprocessing)"]
+    from c12_fns import hard_deadline, single_threaded_torch
+    single_threaded_torch()
+    quick = run.tier == "quick"
     run.build_and_audit(["TdVerif.Props.C12"])
     drv = run.driver()
     import json
@@ -30,15 +33,19 @@ def main():
     run.count("corpus.cases", len(corpus))
     c12_map.replay_cases(run, drv, [c["case"] for c in corpus], stream="map(corpus)")
     import c12_split
-    c12_split.run_split(run, drv)
+    with hard_deadline(300 if quick else 1500, "split"):
+        c12_split.run_split(run, drv)
     if "--split-only" not in __import__("sys").argv:
         import c12_map
-        c12_map.run_map(run, drv)
-        c12_map.run_map_ext(run)
+        with hard_deadline(420 if quick else 2400, "map (process pools)"):
+            c12_map.run_map(run, drv)
+        with hard_deadline(300 if quick else 1500, "map (extended domain)"):
+            c12_map.run_map_ext(run)
         if run.tier != "quick":
             c12_map.probe_max_tasks_per_child(run)
         import c12_threads
-        c12_threads.run_threads(run, drv)
+        with hard_deadline(420 if quick else 2400, "threads"):
+            c12_threads.run_threads(run, drv)
     run.finish("proof")
 
 
